@@ -240,7 +240,7 @@ func Run(r *ev.Run) {
 	if thorough {
 		limit = 16
 	}
-	r.Rule("for every type of C04's domain without standard-library marshaler types and every enumerated value: the valid encoding and EVERY single-point mutation of it (each node swapped for each of 12 values of other JSON types; each integer pushed to every sized-integer bound and bound+-1 within the 64-bit range; each key dropped; a fresh key and a case variant of each key added; arrays shortened, lengthened, null appended), written as text with integers in plain decimal; if the inferred schema validates the document, json.Decoder with DisallowUnknownFields must decode it into T; and a null swapped into a position whose Go type can never be nil (bool, number, string, struct, array) must be rejected by the schema, as must a document that lacks a field carrying neither omitempty nor omitzero and an array of the wrong length for a Go array. Non-trivial = the document validated (the implication's premise holds); documents are de-duplicated per type")
+	r.Rule("for every type of C04's domain without standard-library marshaler types and every enumerated value: the valid encoding and EVERY single-point mutation of it (each node swapped for each of 12 values of other JSON types; each integer pushed to every sized-integer bound and bound+-1 within the 64-bit range; each key dropped; a fresh key, a case variant of each key and the raw text of every json tag that encoding/json does not use as a name added (and substituted); arrays shortened, lengthened, null appended), written as text with integers in plain decimal; if the inferred schema validates the document, json.Decoder with DisallowUnknownFields must decode it into T; and a null swapped into a position whose Go type can never be nil (bool, number, string, struct, array) must be rejected by the schema, as must a document that lacks a field carrying neither omitempty nor omitzero and an array of the wrong length for a Go array. Non-trivial = the document validated (the implication's premise holds); documents are de-duplicated per type")
 	r.Assume("encoding/json strict decoding is the oracle", "an integer outside the 64-bit range of a 64-bit target's signedness is outside the domain; floats out of float32 range are not generated")
 	r.Set("types", len(ts))
 	par.For(len(ts), r.Expired, func(i int, j par.Journal) {
@@ -338,6 +338,21 @@ func Run(r *ev.Run) {
 				r.Fail(dkey, map[string]any{"class": "accepted by the inferred schema but not decodable", "mutation": what, "decode_error": derr.Error()})
 			}
 		}
+		rawNames := map[string]string{} // raw tag name -> the name encoding/json uses
+		if st := t.Type; st.Kind() == reflect.Struct {
+			used := map[string]bool{}
+			for _, f := range gen.JSONFields(st) {
+				used[f.Name] = true
+			}
+			for i := 0; i < st.NumField(); i++ {
+				f := st.Field(i)
+				if tag, ok := f.Tag.Lookup("json"); ok && f.IsExported() {
+					if n, _, _ := strings.Cut(tag, ","); n != "" && n != "-" && !used[n] {
+						rawNames[n] = f.Name
+					}
+				}
+			}
+		}
 		for _, v := range gen.Values(t.Type, limit) {
 			if c04.HasNilMap(v) {
 				continue
@@ -352,6 +367,26 @@ func Run(r *ev.Run) {
 			}
 			try(enc, "valid encoding")
 			mutations(enc, try)
+			// keys spelled like the raw text of a json tag that encoding/json does not use as the
+			// name (it falls back to the Go field name): added next to, and in place of, the real key
+			if enc.K == ref.Obj {
+				for raw, real := range rawNames {
+					o := map[string]*ref.Val{raw: {K: ref.Str, S: ""}}
+					for q, x := range enc.O {
+						o[q] = x
+					}
+					try(&ref.Val{K: ref.Obj, Keys: sortedKeys(o), O: o}, "add raw tag name /"+raw)
+					if cur, ok := enc.O[real]; ok {
+						o2 := map[string]*ref.Val{raw: cur}
+						for q, x := range enc.O {
+							if q != real {
+								o2[q] = x
+							}
+						}
+						try(&ref.Val{K: ref.Obj, Keys: sortedKeys(o2), O: o2}, "rename /"+real+" to its raw tag name "+raw)
+					}
+				}
+			}
 		}
 		r.Eval(docs)
 		r.NontrivialN(accepted)
